@@ -149,12 +149,17 @@ func workload(seed int64, calls int, dir string) uint64 {
 }
 
 func child(seed int64, g, calls int) {
-	root, err := os.MkdirTemp("", "gfsR")
-	if err != nil {
-		fmt.Println("same=setup-failed")
-		return
+	// the parent owns the scratch directory (a child stopped by the race detector cannot clean up)
+	root := os.Getenv("GFS_RACER_ROOT")
+	if root == "" {
+		var err error
+		root, err = os.MkdirTemp("", "gfsR")
+		if err != nil {
+			fmt.Println("same=setup-failed")
+			return
+		}
+		defer os.RemoveAll(root)
 	}
-	defer os.RemoveAll(root)
 	dirs := make([]string, g)
 	for i := range dirs {
 		dirs[i] = mkdir(root, i) // plain os calls only: the library is still cold
@@ -241,7 +246,14 @@ func main() {
 		}
 		cmd := exec.Command(os.Args[0], "child", f[1], f[2], f[3])
 		cmd.Env = append(os.Environ(), "GORACE=halt_on_error=1 exitcode=66")
+		scratch, serr := os.MkdirTemp("", "gfsR")
+		if serr == nil {
+			cmd.Env = append(cmd.Env, "GFS_RACER_ROOT="+scratch)
+		}
 		out, err := cmd.CombinedOutput()
+		if serr == nil {
+			os.RemoveAll(scratch)
+		}
 		so := string(out)
 		switch {
 		case strings.Contains(so, "DATA RACE"):
